@@ -19,6 +19,7 @@ func sends[T any](ch chan T) int { return 0 }
 //@   tags C19 C08
 
 //@ func createAssociationFromConfigWithTsn
+//@   tags C05 C11
 //@   at store Association.t1Init assert#t1-init-bounded{C19,C04} stored != nil && stored.id == timerT1Init && stored.maxRetrans == maxInitRetrans
 //@   at store Association.t1Cookie assert#t1-cookie-bounded{C19,C04} stored != nil && stored.id == timerT1Cookie && stored.maxRetrans == maxInitRetrans
 //@   at store Association.t2Shutdown assert#t2-forever{C19,C08} stored != nil && stored.id == timerT2Shutdown && stored.maxRetrans == noMaxRetrans
